@@ -123,6 +123,122 @@ impl FieldParameters<u128> for FP128 {
     const LOG2_RADIX: usize = 128;
 }
 
+/// Verification hook (feature `prio_verif`): instantiations of the unchanged generic arithmetic at
+/// 8- and 16-bit word sizes, small enough for a SAT/SMT back end to cover every operand.
+#[cfg(feature = "prio_verif")]
+#[allow(dead_code)]
+pub(crate) mod verif_params {
+    use super::{FieldParameters, MAX_ROOTS};
+
+    /// GF(17), single-word u8/u16. R = 256 = 1 (mod 17).
+    pub(crate) struct FP8;
+    impl_field_ops_single_word!(FP8, u8, u16);
+
+    impl FieldParameters<u8> for FP8 {
+        const PRIME: u8 = 17;
+        const MU: u8 = 15;
+        const R2: u8 = 1;
+        const G: u8 = 3;
+        const NUM_ROOTS: usize = 4;
+        const BIT_MASK: u8 = 31;
+        const ROOTS: [u8; MAX_ROOTS + 1] = [
+            1, 16, 13, 9, 3, 0, 0, 0, 0, 0, 0, 0, 0, 0, 0, 0, 0, 0, 0, 0, 0,
+        ];
+        const HALF: u8 = 9;
+        #[cfg(test)]
+        const LOG2_BASE: usize = 8;
+        #[cfg(test)]
+        const LOG2_RADIX: usize = 8;
+    }
+
+    /// GF(251), single-word u8/u16; the modulus is close to the word size.
+    pub(crate) struct FP8B;
+    impl_field_ops_single_word!(FP8B, u8, u16);
+
+    impl FieldParameters<u8> for FP8B {
+        const PRIME: u8 = 251;
+        const MU: u8 = 205;
+        const R2: u8 = 25;
+        const G: u8 = 246;
+        const NUM_ROOTS: usize = 1;
+        const BIT_MASK: u8 = 255;
+        const ROOTS: [u8; MAX_ROOTS + 1] = [
+            5, 246, 0, 0, 0, 0, 0, 0, 0, 0, 0, 0, 0, 0, 0, 0, 0, 0, 0, 0, 0,
+        ];
+        const HALF: u8 = 128;
+        #[cfg(test)]
+        const LOG2_BASE: usize = 8;
+        #[cfg(test)]
+        const LOG2_RADIX: usize = 8;
+    }
+
+    /// GF(61441), single-word u16/u32.
+    pub(crate) struct FP16;
+    impl_field_ops_single_word!(FP16, u16, u32);
+
+    impl FieldParameters<u16> for FP16 {
+        const PRIME: u16 = 61441;
+        const MU: u16 = 61439;
+        const R2: u16 = 57073;
+        const G: u16 = 20130;
+        const NUM_ROOTS: usize = 12;
+        const BIT_MASK: u16 = 65535;
+        const ROOTS: [u16; MAX_ROOTS + 1] = [
+            4095, 57346, 14181, 25886, 52558, 44958, 48923, 205, 9599, 33006, 48922, 44940, 20130,
+            0, 0, 0, 0, 0, 0, 0, 0,
+        ];
+        const HALF: u16 = 32768;
+        #[cfg(test)]
+        const LOG2_BASE: usize = 16;
+        #[cfg(test)]
+        const LOG2_RADIX: usize = 16;
+    }
+
+    /// GF(61441), split-word u16/u8.
+    pub(crate) struct FP16S;
+    impl_field_ops_split_word!(FP16S, u16, u8);
+
+    impl FieldParameters<u16> for FP16S {
+        const PRIME: u16 = 61441;
+        const MU: u16 = 255;
+        const R2: u16 = 57073;
+        const G: u16 = 20130;
+        const NUM_ROOTS: usize = 12;
+        const BIT_MASK: u16 = 65535;
+        const ROOTS: [u16; MAX_ROOTS + 1] = [
+            4095, 57346, 14181, 25886, 52558, 44958, 48923, 205, 9599, 33006, 48922, 44940, 20130,
+            0, 0, 0, 0, 0, 0, 0, 0,
+        ];
+        const HALF: u16 = 32768;
+        #[cfg(test)]
+        const LOG2_BASE: usize = 8;
+        #[cfg(test)]
+        const LOG2_RADIX: usize = 16;
+    }
+
+    /// GF(65521), split-word u16/u8; the low half of the modulus is not 1, which keeps every
+    /// carry of the generic split-word code live.
+    pub(crate) struct FP16T;
+    impl_field_ops_split_word!(FP16T, u16, u8);
+
+    impl FieldParameters<u16> for FP16T {
+        const PRIME: u16 = 65521;
+        const MU: u16 = 239;
+        const R2: u16 = 225;
+        const G: u16 = 7306;
+        const NUM_ROOTS: usize = 4;
+        const BIT_MASK: u16 = 65535;
+        const ROOTS: [u16; MAX_ROOTS + 1] = [
+            15, 65506, 28671, 16007, 7306, 0, 0, 0, 0, 0, 0, 0, 0, 0, 0, 0, 0, 0, 0, 0, 0,
+        ];
+        const HALF: u16 = 32768;
+        #[cfg(test)]
+        const LOG2_BASE: usize = 8;
+        #[cfg(test)]
+        const LOG2_RADIX: usize = 16;
+    }
+}
+
 /// Compute the ceiling of the base-2 logarithm of `x`.
 pub(crate) fn log2(x: u128) -> u128 {
     let y = (127 - x.leading_zeros()) as u128;
